@@ -19,6 +19,12 @@ import (
 // that get no reply at all while the listener is being closed are counted
 // (HTTP cannot tell "never accepted" from "accepted and dropped"), not judged.
 func runC12proc(c *runCtx) {
+	if c.shard == c.nshards-1 {
+		runOverload(c)
+	}
+	if c.shard == c.nshards-2 || c.nshards == 1 {
+		runStoreFault(c)
+	}
 	rounds := 8
 	if c.tier == "thorough" {
 		rounds = 160
@@ -33,7 +39,7 @@ func runC12proc(c *runCtx) {
 		if err := srv.Start(); err != nil {
 			panic(err)
 		}
-		var replies, noReply, bad atomic.Int64
+		var replies, noReply, bad, early, termAt atomic.Int64
 		var badExample atomic.Value
 		statuses := sync.Map{}
 		var stop atomic.Bool
@@ -53,6 +59,11 @@ func runC12proc(c *runCtx) {
 					}
 					if err != nil {
 						noReply.Add(1)
+						if termAt.Load() == 0 {
+							// the request ended without a reply before shutdown was even requested
+							early.Add(1)
+							badExample.Store(err.Error())
+						}
 						if strings.Contains(err.Error(), "refused") {
 							return
 						}
@@ -70,6 +81,7 @@ func runC12proc(c *runCtx) {
 			}(cl)
 		}
 		time.Sleep(time.Duration(20+r.Intn(200)) * time.Millisecond)
+		termAt.Store(time.Now().UnixMilli())
 		srv.Term()
 		exited := srv.WaitExit(25 * time.Second)
 		stop.Store(true)
@@ -88,6 +100,9 @@ func runC12proc(c *runCtx) {
 			srv.Kill()
 		} else if code := srv.ExitCode(); code != 0 {
 			c.violate("sigterm:exit-status", fmt.Sprintf("round %d: exit status %d after SIGTERM with requests in flight :: %s", round, code, srv.LogTail()), nil)
+		}
+		if early.Load() > 0 {
+			c.violate("running:reply-dropped", fmt.Sprintf("round %d: %d requests ended without any reply (e.g. %v) while the server was running and before shutdown was requested", round, early.Load(), badExample.Load()), nil)
 		}
 		if bad.Load() > 0 {
 			c.violate("sigterm:unexpected-status", fmt.Sprintf("round %d: %d replies were neither a result nor an explicit error (e.g. %v)", round, bad.Load(), badExample.Load()), nil)
